@@ -19,12 +19,33 @@ KE = ["fish", "cell_sugar", "scp", "greenhouse", "seaweed", "milk", "meat", "imm
 
 
 def gen_cases(tier, seed):
-    return workload.pipeline_grid(tier, seed)
+    cases = workload.pipeline_grid(tier, seed)
+    # runs in which the herd model yields less meat with feed than without, so that the feed round is abandoned and the final round
+    # repeats the first (a purely data-driven branch: Lesotho under delayed shut-offs, Chad with present-day pasture): the run still
+    # ends with its final solve and final table
+    extra = [("LSO", dict(scenario="all_resilient_foods", shutoff="long_delayed_shutoff", meat_strategy="reduce_breeding")),
+             ("LSO", dict(scenario="no_resilient_foods", shutoff="short_delayed_shutoff", meat_strategy="reduce_breeding")),
+             ("TCD", dict(scenario="cellulosic_sugar", shutoff="long_delayed_shutoff", meat_strategy="feed_only_ruminants", grasses="baseline"))]
+    if tier == "thorough":
+        extra += [("LSO", dict(scenario=sc, shutoff=sh, meat_strategy=ms, NMONTHS=n)) for sc in ("all_resilient_foods", "seaweed", "no_resilient_foods", "industrial_foods")
+                  for sh in ("long_delayed_shutoff", "short_delayed_shutoff", "one_month_delayed_shutoff") for ms in ("reduce_breeding", "baseline_breeding") for n in (120, 72)]
+    for iso, kw in extra:
+        c = workload.pipeline_case(iso, workload.base_country(**kw), "feed_round_abandoned/%s/%s" % (kw["scenario"], kw["shutoff"]))
+        c["id"] = "%s/%s#x%d" % (iso, c["tag"], len(cases))
+        cases.append(c)
+    return cases
 
 
 def _close(a, b, rel=1e-9, ab=1e-9):
     a, b = np.asarray(a, float), np.asarray(b, float)
     return float(np.max(np.abs(a - b) - rel * np.maximum(np.abs(a), np.abs(b)))) <= ab
+
+
+STALE = "month,stale table of an earlier run under the same title\n"
+
+
+def final_table_path(scratch, title):
+    return os.path.join(scratch, "results", re.sub(r'[\\/*?:"<>|\n]', "_", (title or "") + "_round3") + "_ykcals.csv")
 
 
 def monitor(tr, case):
@@ -34,6 +55,26 @@ def monitor(tr, case):
         d.update(iso=case["iso"], tag=case.get("tag"))
         viol.append({"mech": mech, "msg": "%s %s" % (case["iso"], msg), "data": d})
 
+    # the table of the run's returned (final) result: every run ends with the solve titled "<title>_round3", whose table is the
+    # one the web front end reads.  A table of an earlier run under the same title was planted there before the run (run_case):
+    # it must have been replaced by the numbers of the result this run returned
+    fin = final_table_path(tr.scratch, tr.title)
+    if tr.error is None and tr.result is not None and case.get("planted_final_table"):
+        txt = open(fin).read() if os.path.exists(fin) else None
+        if txt is None or txt == STALE:
+            bad("final_table_not_written", "the run returned a result (%.6f %% fed) but %s: what is read from results/%s is not this run's" % (
+                tr.result.percent_people_fed, "no final table exists" if txt is None else "the table an earlier run left under the same title is still in place", os.path.basename(fin)),
+                rounds_solved=len(tr.lps))
+        else:
+            import io
+            import pandas as pd
+
+            df = pd.read_csv(io.StringIO(txt), index_col=0, float_precision="round_trip")
+            for n in KE:
+                b = np.asarray(getattr(tr.result, n + "_kcals_equivalent").kcals, float)
+                if n not in df.columns or len(df) != len(b) or not np.array_equal(df[n].values.astype(float), b):
+                    bad("final_table_differs_from_returned_result", "column %s of results/%s is not the returned result's series" % (n, os.path.basename(fin)), column=n)
+                    break
     for k, lp in enumerate(tr.lps):
         ir = lp.interp
         if ir is None:
@@ -159,6 +200,11 @@ def run_case(case, tier):
     # default): the result then also passes through the plotting code before it is returned
     if sum(map(ord, case.get("id", ""))) % 8 == 1:
         case = dict(case, plots=True)
+    from vlib import env
+
+    case = dict(case, planted_final_table=True)
+    with open(final_table_path(env.scratch_dir(), case.get("title") or ("t_" + case["iso"])), "w") as fh:
+        fh.write(STALE)
     r = pipeline.run(case, monitor)
     r["obs"]["plots"] = bool(case.get("plots"))
     return r
